@@ -144,19 +144,25 @@ theorem C05_intercept_after_unrestricted_fails :
     rw [hrun]; decide
   · exact ⟨.cons "g" (.sc "i3") .nil, by decide⟩
 
-/-! ## Recorded finding: an Update RPC that does not hand the request's mask to the store
+/-! ## Repaired finding: an Update RPC that did not hand the request's mask to the store
 
-`lightpb.MemoryDevice.UpdateBrightness` (plain path: no preset, no tween) calls
-`s.brightness.Set(request.Brightness, WithResetPaths(…), InterceptBefore(delta + cap))` — the
-request's `update_mask` is not among the options (`lightpb.ModelServer` passes it).  The store's code
-is right; the statement fails at the RPC.  Signature `C05/trait/lightpb.MemoryDevice/UpdateBrightness/update-mask-ignored`. -/
+`lightpb.MemoryDevice.UpdateBrightness` called `s.brightness.Set(request.Brightness)` (preset path) and
+`s.brightness.Set(request.Brightness, WithResetPaths(…), InterceptBefore(delta + cap))` (plain path:
+no preset, no tween) — the request's `update_mask` was not among the options (`lightpb.ModelServer`
+passes it).  The store's code was right; the statement failed at the RPC (signature
+`C05/trait/lightpb.MemoryDevice/UpdateBrightness/update-mask-ignored`, round 7).  Since d3fb08f both
+calls pass `resource.WithUpdateMask(request.UpdateMask)`: the RPC is `rpcUpdateBrightness` below, for
+which the clauses of the property hold for ALL requests (`C05_trait_rpc_*`).  `rpcMaskDropped` is the
+variant that is NOT the code any more; the `_fails` / `_partial` pair stays as the witness that the
+option is what makes the difference. -/
 
-/-- The RPC as coded: the request's mask is dropped. -/
+/-- The RPC as it was coded before d3fb08f (NOT the code): the request's mask is dropped. -/
 def rpcMaskDropped (S : Schema) (ty : Nat) (resW R : Option (List Path)) (_reqMask : Option (List Path))
     (before : Option Icpt) (stored src : Fields) : SetOut :=
   valueSetI S ty (fieldUpdater resW none false none R) before none stored src
 
-/-- The RPC as the property states it: the write runs with the request's mask. -/
+/-- One `Set` call of the RPC as coded since d3fb08f (and as the property states it): the write runs
+with the request's mask next to the server's writable fields, reset paths and before-interceptor. -/
 def rpcAsStated (S : Schema) (ty : Nat) (resW R : Option (List Path)) (reqMask : Option (List Path))
     (before : Option Icpt) (stored src : Fields) : SetOut :=
   valueSetI S ty (fieldUpdater resW none false reqMask R) before none stored src
@@ -188,6 +194,82 @@ writable part of the written message — `g` is replaced, the read-only `f` stay
 example : ∃ s, rpcMaskDropped wSchema 0 (some [["g"]]) none none none wStored (.cons "g" (.sc "i9") .nil)
     = .ok (.cons "f" (.msg (.cons "c" (.sc "i1") (.cons "d" (.sc "i2") .nil))) (.cons "g" (.sc "i9") .nil)) s :=
   ⟨.cons "g" (.sc "i9") .nil, by decide⟩
+
+/-- `lightpb.MemoryDevice.UpdateBrightness` since d3fb08f, the two paths that write the caller's
+message: a request with a preset writes it with the request's mask and nothing else (no reset paths,
+no interceptor); a request without preset and without tween writes it with the request's mask, the
+reset paths `R` of the server (`target_level_percent`, `brightness_tween`) and the before-interceptor
+`capDelta` (delta added, level capped).  (The tween path writes with explicit update paths of its own
+and starts a timer: not modelled here.) -/
+def rpcUpdateBrightness (S : Schema) (ty : Nat) (resW R reqMask : Option (List Path)) (preset : Bool)
+    (capDelta : Icpt) (stored src : Fields) : SetOut :=
+  if preset then rpcAsStated S ty resW none reqMask none stored src
+  else rpcAsStated S ty resW R reqMask (some capDelta) stored src
+
+/-- **C05_trait_rpc_rejects.**  The repaired RPC rejects a request whose `update_mask` names an
+unknown path or a path outside the server's writable fields with InvalidArgument, on both paths, for
+ALL stored and written messages, reset paths and interceptors (before d3fb08f it accepted them:
+`C05_trait_mask_dropped_fails`). -/
+theorem C05_trait_rpc_rejects (S : Schema) (ty : Nat) (resW R : Option (List Path)) (M : List Path)
+    (hbad : (∃ p ∈ M, ¬ GoodPath S ty p) ∨
+      (∃ W, resW = some W ∧ ∃ p ∈ M, ¬ InsideWritable (union W []) p))
+    (preset : Bool) (capDelta : Icpt) (stored src : Fields) :
+    rpcUpdateBrightness S ty resW R (some M) preset capDelta stored src = .err .invalidArgument := by
+  have key : ∀ R' before, rpcAsStated S ty resW R' (some M) before stored src = .err .invalidArgument := by
+    intro R' before
+    unfold rpcAsStated
+    refine C05_intercept_rejects S ty _ M (rpcAsStated_updater resW R' (some M)).1 ?_ before none stored src
+    rcases hbad with h | ⟨W, hW, p, hp, hout⟩
+    · exact Or.inl h
+    · refine Or.inr ⟨union W [], ?_, p, hp, hout⟩
+      rw [(rpcAsStated_updater resW R' (some M)).2.2, hW]; rfl
+  unfold rpcUpdateBrightness
+  cases preset <;> simp only [Bool.false_eq_true, if_false, if_true] <;> exact key _ _
+
+/-- **C05_trait_rpc_empty_mask.**  A request with an empty non-nil `update_mask` changes nothing on
+either path — the server's own reset paths included, whatever the delta / cap interceptor makes of
+the written message (before d3fb08f it changed `level_percent`). -/
+theorem C05_trait_rpc_empty_mask (S : Schema) (ty : Nat) (resW R : Option (List Path))
+    (preset : Bool) (capDelta : Icpt) (stored src st s : Fields)
+    (h : rpcUpdateBrightness S ty resW R (some []) preset capDelta stored src = .ok st s) :
+    st = stored := by
+  unfold rpcUpdateBrightness rpcAsStated at h
+  cases preset <;> simp only [Bool.false_eq_true, if_false, if_true] at h
+  · exact C05_intercept_empty_mask S ty _ _ none stored src st s (rpcAsStated_updater resW R (some [])).1
+      (by intro g hg; cases hg) h
+  · exact C05_intercept_empty_mask S ty _ _ none stored src st s (rpcAsStated_updater resW none (some [])).1
+      (by intro g hg; cases hg) h
+
+/-- **C05_trait_rpc_frame.**  A top-level field `k` that the request's mask (the server's writable
+fields for a request without mask) and the server's reset paths have no path through is, after a
+successful call on either path, exactly as stored: for ALL interceptors `capDelta`, stored and
+written messages. -/
+theorem C05_trait_rpc_frame (S : Schema) (ty : Nat) (resW R reqMask : Option (List Path))
+    (preset : Bool) (capDelta : Icpt) (stored src st s : Fields) (k : Name)
+    (ha : Avoids k (fieldUpdater resW none false reqMask R)) (hd : NotDisplaced S ty k)
+    (h : rpcUpdateBrightness S ty resW R reqMask preset capDelta stored src = .ok st s) :
+    st.get k = stored.get k := by
+  have hk : KeepsField k none := by intro g hg; cases hg
+  unfold rpcUpdateBrightness rpcAsStated at h
+  cases preset <;> simp only [Bool.false_eq_true, if_false, if_true] at h
+  · exact C05_intercept_frame S ty _ _ none stored src st s k ha hd hk h
+  · have ha' : Avoids k (fieldUpdater resW none false reqMask none) := by
+      obtain ⟨hm, _⟩ := ha
+      refine ⟨?_, by intro R' hR'; rw [fieldUpdater_eq] at hR'; cases hR'⟩
+      rw [fieldUpdater_eq] at hm ⊢
+      exact hm
+    exact C05_intercept_frame S ty _ _ none stored src st s k ha' hd hk h
+
+/-- The repaired RPC on the witness of `C05_trait_mask_dropped_fails`: the empty mask changes
+nothing, the unknown path is rejected, and the ordinary request still replaces `g`. -/
+example : ∀ preset, ∃ s,
+    rpcUpdateBrightness wSchema 0 (some [["g"]]) none (some []) preset (fun _ m => m) wStored (.cons "g" (.sc "i9") .nil)
+      = .ok wStored s ∧
+    rpcUpdateBrightness wSchema 0 (some [["g"]]) none (some [["nope"]]) preset (fun _ m => m) wStored (.cons "g" (.sc "i9") .nil)
+      = .err .invalidArgument ∧
+    (rpcUpdateBrightness wSchema 0 (some [["g"]]) none (some [["g"]]) preset (fun _ m => m) wStored (.cons "g" (.sc "i9") .nil)
+      = .ok (.cons "f" (.msg (.cons "c" (.sc "i1") (.cons "d" (.sc "i2") .nil))) (.cons "g" (.sc "i9") .nil)) s) := by
+  intro preset; cases preset <;> exact ⟨.cons "g" (.sc "i9") .nil, by decide, by decide, by decide⟩
 
 /-! ## Non-vacuity -/
 
